@@ -471,8 +471,9 @@ func (fr *Frame) external(callee *ssa.Function, x *ssa.Call, args []Val, st *Sta
 	case "strings.Index":
 		c.usedAssumed[full+": first occurrence of the substring or -1"] = true
 		s, p := args[0], args[1]
-		c.tick(st, lAdd(lAdd(s.C[2], p.C[2]), "1"))
 		r := c.declare(c.fresh("idx"), "Int")
+		// cost: the distance scanned up to the match (or the whole haystack) plus the pattern
+		c.tick(st, "(+ (ite (= "+r+" (- 1)) "+s.C[2]+" "+r+") (* 2 "+p.C[2]+") 1)")
 		// quantify over the absolute start index j of a candidate match (pattern: (select A j))
 		absMatch := func(j string) string { return fr.matchAbs(s, j, p) }
 		lastStart := lSub(lAdd(s.C[1], s.C[2]), p.C[2]) // O + len(s) - len(p)
